@@ -220,3 +220,44 @@ pub fn machinery_fail(msg: &str) -> ! {
     eprintln!("MACHINERY: {msg}");
     std::process::exit(2)
 }
+
+/// Stable class of a diagnostic message: bracketed lists, UUIDs, hex keys and numbers are replaced by '#'.
+pub fn msg_class(s: &str) -> String {
+    let mut out = String::new();
+    let mut depth = 0usize;
+    let mut token = String::new();
+    let flush = |token: &mut String, out: &mut String| {
+        if token.is_empty() {
+            return;
+        }
+        let uuidish = token.len() >= 8 && token.chars().all(|c| c.is_ascii_hexdigit() || c == '-');
+        let numeric = token.chars().any(|c| c.is_ascii_digit());
+        if uuidish || numeric {
+            if !out.ends_with('#') {
+                out.push('#');
+            }
+        } else {
+            out.push_str(token);
+        }
+        token.clear();
+    };
+    for ch in s.chars() {
+        match ch {
+            '[' | '(' | '{' => {
+                flush(&mut token, &mut out);
+                depth += 1;
+            }
+            ']' | ')' | '}' => {
+                depth = depth.saturating_sub(1);
+            }
+            _ if depth > 0 => {}
+            c if c.is_alphanumeric() || c == '-' || c == '_' || c == '.' => token.push(c),
+            c => {
+                flush(&mut token, &mut out);
+                out.push(c);
+            }
+        }
+    }
+    flush(&mut token, &mut out);
+    out.split_whitespace().collect::<Vec<_>>().join(" ").chars().take(70).collect()
+}
